@@ -12,7 +12,9 @@ EXPLANATION = (
     "followed by a reader task on the new read half; (D4) on_reconnect installs the new stream, reestablish_connection reconnects then "
     "re-registers with the stream's own headers, ClientConnection::reconnect reconnects only when the old connection is closed. Delivery after a "
     "real reconnect, attempt counts actually made and timing are NOT decided.")
-ASSUMPTIONS = ["quinn's close_reason() is Some exactly when the connection is closed"]
+ASSUMPTIONS = ["quinn's close_reason() is Some exactly when the connection is closed",
+               "quinn converts ReadError/WriteError ConnectionLost and ClosedStream to io::ErrorKind::NotConnected and Reset/Stopped to ConnectionReset; "
+               "std::io::ErrorKind discriminants 3 = ConnectionReset, 7 = NotConnected on the pinned toolchain"]
 
 KA = "selium::keep_alive::"
 ITER_NEXT = "core::iter::traits::iterator::Iterator::next"
@@ -261,6 +263,35 @@ def d2(ctx, F):
               "handle_reply returns a stream error met during registration unchanged (so that a connection lost mid-registration stays recoverable)", hr.span)
     ide = F.body(KA + "helpers::is_disconnect_error")
     ctx.touch(ide)
+    # (seed c12-22) which io::ErrorKinds count as an outage: quinn's `From<ReadError|WriteError> for io::Error` reports a lost connection /
+    # closed stream as NotConnected and a reset / stopped stream as ConnectionReset. Both must be accepted (a superset is fine; the set
+    # is read off the function, not matched as text: a `match`/`matches!` shows as a switch on discr(ErrorKind), `==` as a comparison
+    # with a promoted `&ErrorKind::X`).
+    EK = "core::io::error::ErrorKind"
+    DISCR = {3: "ConnectionReset", 7: "NotConnected"}      # std::io::ErrorKind discriminants on the pinned toolchain (see ASSUMPTIONS)
+    accepted, forms = set(), 0
+    dl = {pl["l"] for i, j, pl, rv, st in ide.assigns() if rv["k"] == "discr" and rv.get("adt") == EK}
+    for bl in ide.blocks:
+        t = bl["term"]
+        if bl.get("cleanup") or t["k"] != "switch" or op_local(t["discr"]) not in dl:
+            continue
+        forms += 1
+        for val, tgt in t["targets"]:
+            accepted.add(DISCR.get(int(val), "#%s" % val))
+    def _ops():
+        for i, j, pl, rv, st in ide.assigns():
+            if rv["k"] == "use":
+                yield rv["op"]
+        for c in ide.calls():
+            for a in (c.args or []):
+                yield a
+    for o in _ops():
+        if isinstance(o, dict) and o.get("k") == "const" and o.get("promoted_adt") == EK:
+            forms += 1
+            accepted.add(o.get("promoted_variant"))
+    ctx.check(forms > 0 and {"ConnectionReset", "NotConnected"} <= accepted, "C12.D2.outage-kinds", "disconnect-kinds",
+              "is_disconnect_error accepts at least the kinds the transport reports for a lost connection / closed or reset stream "
+              "(ConnectionReset, NotConnected); found %s" % sorted(str(a) for a in accepted), ide.span)
     ibe = F.body(KA + "helpers::is_bind_error")
     ctx.touch(ibe)
     items = [o.get("item") for i, j, pl, rv, s in ibe.assigns() if rv["k"] == "binop" and rv["op"] == "Eq" for o in (rv["a"], rv["b"]) if o.get("k") == "const"]
